@@ -149,9 +149,7 @@ class QiskitConverter:
 
         for i, inst in enumerate(q_circuit.data):
             gate = inst.operation.name
-            qubits = [
-                inst.qubits[i]._index for i in range(inst.operation.num_qubits)
-            ]
+            qubits = [q_circuit.find_bit(q).index for q in inst.qubits]
             if gate not in ALLOWED_GATES:
                 msg = f"Unsupported gate '{gate}' included in circuit."
                 raise ValueError(msg)
@@ -344,12 +342,7 @@ def post_selection_analyzer(
     gate_qubits: list[list[int] | None] = []
     for inst in qc.data:
         if inst.operation.num_qubits >= 2:
-            gate_qubits.append(
-                [
-                    inst.qubits[i]._index
-                    for i in range(inst.operation.num_qubits)
-                ]
-            )
+            gate_qubits.append([qc.find_bit(q).index for q in inst.qubits])
         else:
             gate_qubits.append(None)
 
